@@ -16,7 +16,8 @@ RULE = (
     "a 70-character one, unnamed LeafRelation, make_leaf without a name, materialized() without a name (equal targets, "
     "kept alive), each with a short and a 70-character prefix} x engines {e1, e2 (iteration), s (SQL)}; "
     "concurrent: 2 threads x 2 requests and 3 threads x 1 request on one engine, leaf construction vs direct request, "
-    "two engines, materialized() vs direct - every interleaving at CPython bytecode granularity inside the library with "
+    "two engines, materialized() vs direct, and two harnesses started after 9998 sequential requests (the 4-digit "
+    "counter of the name format at its boundary; <= 1 preemption) - every interleaving at CPython bytecode granularity inside the library with "
     "at most 2 preemptions (CHESS-style iterative bounding: 0, 1, 2), executions always run to completion; uuid.uuid4 "
     "is replaced by an injective fresh-value oracle; oracle: all names pairwise distinct, each starts with its "
     "requested prefix, each embeds the fresh draw made during its own request; non-trivial = execution with >= 1 "
@@ -141,14 +142,23 @@ def _seq_work(prefixes):
 
 
 # ----------------------------------------------------------------------------- concurrent harnesses
-def harness(spec):
-    """spec: list of per-thread request lists [(kind, engine_name, prefix), ...]"""
+def harness(spec, prior=0):
+    """spec: list of per-thread request lists [(kind, engine_name, prefix), ...]; ``prior`` sequential
+    requests on engine e1 are issued before the threads start."""
 
     def make():
         fresh = Fresh()
         uuid.uuid4 = fresh
-        engines = {"e1": iteration.Engine(name="e1"), "e2": iteration.Engine(name="e2"), "s": sql.Engine(name="s")}
+        with sched.patched_locks():
+            engines = {"e1": iteration.Engine(name="e1"), "e2": iteration.Engine(name="e2"), "s": sql.Engine(name="s")}
         out = []
+        if prior:
+            # request history before the threads start (untraced): brings the 4-digit counter to its boundary
+            e1 = engines["e1"]
+            tid = threading.get_ident()
+            for _ in range(prior):
+                name = e1.get_relation_name("p")
+                out.append({"prefix": "p", "name": name, "draws": fresh.draws[tid][-1:], "kind": "direct"})
 
         def body(reqs):
             def run():
@@ -180,15 +190,20 @@ THOROUGH_EXTRA = {
 }
 
 
+def _prior(label):
+    return 9998 if "counter boundary" in label else 0
+
+
 def _conc_work(arg):
     label, spec, bound, start = arg
     real = uuid.uuid4
+    prior = _prior(label)
     try:
         if start == "default-only":
             # the default (zero-deviation) schedule; its subtrees are explored by the other tasks
-            res = sched.explore(harness(spec), -1, lambda obs: judge(obs["requests"]))
+            res = sched.explore(harness(spec, prior), -1, lambda obs: judge(obs["requests"]))
         else:
-            res = sched.explore(harness(spec), bound, lambda obs: judge(obs["requests"]), start=start)
+            res = sched.explore(harness(spec, prior), bound, lambda obs: judge(obs["requests"]), start=start)
     finally:
         uuid.uuid4 = real
     viols = []
@@ -196,8 +211,8 @@ def _conc_work(arg):
         kind, detail = p["problem"]
         # replay twice: identical observations required before trusting the failure
         try:
-            o1 = sched.replay(harness(spec), p["schedule"])
-            o2 = sched.replay(harness(spec), p["schedule"])
+            o1 = sched.replay(harness(spec, prior), p["schedule"])
+            o2 = sched.replay(harness(spec, prior), p["schedule"])
         finally:
             uuid.uuid4 = real
         if o1 != o2 or not judge(o1["requests"]):
@@ -226,6 +241,8 @@ def run(tier, seed):
     for d in range(1, depth):
         seq.append(_seq_work((d, [()])))
     tasks = [(label, spec, 2) for label, spec in HARNESSES.items()]
+    tasks.append(("counter boundary: 9998 prior requests, then 2x2 same engine", HARNESSES["2x2 same engine"], 1 if tier == "quick" else 2))
+    tasks.append(("counter boundary: 9998 prior requests, leaf vs materialized", [[("leaf", "e1", "p")], [("materialized", "e1", "p")]], 1))
     if tier == "thorough":
         tasks += [("2x1 bound 3", THOROUGH_EXTRA["2x1 bound 3"], 3), ("3x1 mixed kinds", THOROUGH_EXTRA["3x1 mixed kinds"], 2)]
         tasks += [("2x2 same engine bound 3", HARNESSES["2x2 same engine"], 3)]
@@ -233,7 +250,7 @@ def run(tier, seed):
     real = uuid.uuid4
     try:
         for label, spec, bound in tasks:
-            kids = sched.root_children(harness(spec), bound)
+            kids = sched.root_children(harness(spec, _prior(label)), bound)
             split.append((label, spec, bound, "default-only"))
             for ch in par.chunks(kids, 12):
                 split.append((label, spec, bound, ch))
@@ -299,7 +316,7 @@ def replay(doc):
     try:
         if "schedule" in c:
             spec = [[tuple(r) for r in th] for th in c["spec"]]
-            obs = sched.replay(harness(spec), c["schedule"])
+            obs = sched.replay(harness(spec, _prior(c["harness"])), c["schedule"])
             probs = judge(obs["requests"])
             ps = f"threads: {c['harness']} schedule={c['schedule']}"
         else:
